@@ -37,6 +37,8 @@ SHAPES = [
     (2, 2, 1, 1), (4, 4, 2, 2), (6, 6, 3, 3), (4, 2, 2, 1), (2, 4, 1, 2), (6, 4, 3, 2), (6, 2, 3, 1),
     (4, 4, 3, 1), (4, 4, 1, 3), (4, 2, 3, 1), (2, 2, 2, 2), (2, 2, 2, 1), (4, 6, 1, 3), (6, 6, 2, 4),
     (4, 4, 0, 4), (4, 4, 4, 0), (2, 2, 0, 2), (2, 4, 0, 4), (4, 2, 2, 2), (6, 6, 2, 2), (6, 4, 2, 2),
+    # one contributing parent that passes on FEWER copies than it has (dihaploid of a tetraploid, trihaploid of a hexaploid ...)
+    (4, 4, 2, 0), (4, 4, 0, 2), (6, 6, 3, 0), (4, 6, 0, 3), (6, 4, 0, 2), (4, 2, 0, 1), (2, 4, 0, 2), (6, 6, 0, 2), (4, 4, 0, 3), (4, 4, 1, 0),
 ]
 
 
@@ -53,7 +55,7 @@ def required(tier):
             "gamete_sums": 1000, "configs_unbalanced": 300, "configs_lambda": 300, "configs_clonal": 100,
             "configs_unknown_parent": 300, "configs_zero_error": 300, "invalid_trios_seen": 300,
             "dirty_scratch_calls": 5000, "extra_padding_calls": 5000,
-            "pederr_traces_checked": 150, "pederr_steps_decided": 5000, "pederr_traces_parent_ploidy_above_progeny": 40, "pederr_traces_with_valid_and_invalid_steps": 40}
+            "configs_single_parent_partial_transmission": 300, "pederr_traces_checked": 150, "pederr_steps_decided": 5000, "pederr_traces_parent_ploidy_above_progeny": 40, "pederr_traces_with_valid_and_invalid_steps": 40}
 
 
 def make_case(rng):
@@ -134,6 +136,8 @@ def check_case(c, col, K, sample=False):
         col.count("configs_lambda")
     if c["tau_p"] == 0 or c["tau_q"] == 0:
         col.count("configs_clonal")
+        if (c["tau_p"] and c["tau_p"] < len(c["par_p"])) or (c["tau_q"] and c["tau_q"] < len(c["par_q"])):
+            col.count("configs_single_parent_partial_transmission")
     if not (c["known_p"] and c["known_q"]):
         col.count("configs_unknown_parent")
     zero_err = (ep == 0.0 or c["tau_p"] == 0) and (eq == 0.0 or c["tau_q"] == 0)
